@@ -341,3 +341,15 @@ M('C15', 'poisson-wrong-centre', PDF, "        let within = tree.within(&working
 M('C15', 'uniform-weights-not-affine', SAF, "            let b = r1.sqrt() * (1.0 - r2);", "            let b = r1 * (1.0 - r2);", 'weights-sum-to-one')
 M('C15', 'poisson-mesh-radius', SAF, "        let to_take = sample_poisson_disk(&points, &indices, radius);", "        let to_take = sample_poisson_disk(&points, &indices, radius * 0.5);", 'sample_poisson')
 M('C15', 'order-vote-threshold', 'src/geom2/hull.rs', "    if d_sum > 0 {\n        AngleDir::Ccw", "    if d_sum >= 0 {\n        AngleDir::Ccw", 'order-vote')
+
+# ---------------------------------------------------------------- C11
+M('C11', 'circle-box-wrong-radius', CIF, "        let aabb = circle_aabb2(&center, r);\n        Circle2 {\n            center,\n            ball: Ball::new(r),", "        let aabb = circle_aabb2(&center, r);\n        Circle2 {\n            center,\n            ball: Ball::new(r * 2.0),", 'aabb:from_point')
+M('C11', 'partial-arc-stale-box', CIF, "        let aabb = arc_aabb2(self, angle0, angle);\n        Arc2 {\n            circle: *self,\n            angle0,\n            angle,\n            aabb,", "        let aabb = self.aabb;\n        Arc2 {\n            circle: *self,\n            angle0,\n            angle,\n            aabb,", 'aabb:to_partial_arc')
+M('C11', 'arc-box-three-quadrants', 'src/geom2/aabb2.rs', "    for i in 0..4 {", "    for i in 0..3 {", 'arc_aabb2')
+M('C11', 'intersections-nested-unguarded', CIF, "        if d < r_diff - TOL {\n            // One circle is inside the other\n            return result;\n        }\n", "", 'intersections_with')
+M('C11', 'tangent-asin', CIF, "        let angle = f64::acos(self.ball.radius / d);", "        let angle = f64::asin(self.ball.radius / d);", 'tangent_points_to:centre-angle')
+M('C11', 'tangent-inside-allowed', CIF, "        if d <= self.ball.radius {\n            return None;\n        }\n\n        // The half angle", "        if d < 0.0 {\n            return None;\n        }\n\n        // The half angle", 'tangent_points_to:inside')
+M('C11', 'three-points-centre-sign', CIF, "            let cy = ((p0.x - p1.x) * cd - (p1.x - p2.x) * bc) / det;", "            let cy = ((p0.x - p1.x) * cd + (p1.x - p2.x) * bc) / det;", 'from_3_points:equidistant')
+M('C11', 'arc-length-signed', CIF, "        self.circle.ball.radius * self.angle.abs()", "        self.circle.ball.radius * self.angle", 'Arc2::length')
+M('C11', 'arc-point-at-angle-no-offset', CIF, "        self.circle.point_at_angle(self.angle0 + angle)", "        self.circle.point_at_angle(angle)", 'Arc2::point_at_angle')
+M('C11', 'segment-accepts-degenerate', 'src/geom2/line2.rs', "dist(&a, &b) < 1e-12", "dist(&a, &b) < 0.0", 'Segment2::try_new')
